@@ -184,8 +184,8 @@ struct Pre2 {
     pself: usize,
 }
 
-fn setup2(x: &Rc<Probe>, p: &Rc<Probe>, xf: usize, xb: usize) -> Pre2 {
-    let pre = Pre2 { wx: kani::any(), sp: kani::any(), wp: kani::any(), xf, xb, pself: kani::any() };
+fn setup2(x: &Rc<Probe>, p: &Rc<Probe>, xf: usize, xb: usize, pself: usize) -> Pre2 {
+    let pre = Pre2 { wx: kani::any(), sp: kani::any(), wp: kani::any(), xf, xb, pself };
     kani::assume(pre.wx >= 1);
     set_counts(x, 0, pre.wx);
     set_counts(p, pre.sp, pre.wp);
@@ -213,10 +213,10 @@ fn check2(x: &Rc<Probe>, p: &Rc<Probe>, pre: &Pre2) {
     kani::assert(borrow_free(p), "U6.dua.no_borrow_left_on_peer");
 }
 
-fn run_dua_keeps(xf: usize, xb: usize) {
+fn run_dua_keeps(xf: usize, xb: usize, pself: usize) {
     let x = Rc::new(Probe(1));
     let p = Rc::new(Probe(2));
-    let pre = setup2(&x, &p, xf, xb);
+    let pre = setup2(&x, &p, xf, xb, pself);
     kani::assume(pre.wx >= 2);
     let mut h = alias(&x);
     unsafe { drop_unreachable_with_adoptions(&mut h) };
@@ -233,7 +233,7 @@ fn run_dua_keeps(xf: usize, xb: usize) {
 fn u6_dua_owner_dies() {
     let k: usize = kani::any();
     kani::assume(k >= 1);
-    run_dua_keeps(k, 0);
+    run_dua_keeps(k, 0, kani::any());
 }
 
 /// p has a (stale) adoption of x (any multiplicity): the dying adoptee purges itself from its former adopter
@@ -242,7 +242,7 @@ fn u6_dua_owner_dies() {
 fn u6_dua_adoptee_dies() {
     let k: usize = kani::any();
     kani::assume(k >= 1);
-    run_dua_keeps(0, k);
+    run_dua_keeps(0, k, kani::any());
 }
 
 /// mutual adoption with independent multiplicities
@@ -251,7 +251,7 @@ fn u6_dua_adoptee_dies() {
 fn u6_dua_mutual() {
     let (k1, k2): (usize, usize) = (kani::any(), kani::any());
     kani::assume(k1 >= 1 && k2 >= 1);
-    run_dua_keeps(k1, k2);
+    run_dua_keeps(k1, k2, kani::any());
 }
 
 /// last weak: the allocation is released
@@ -261,7 +261,7 @@ fn u6_dua_releases() {
     let x = Rc::new(Probe(1));
     let p = Rc::new(Probe(2));
     let (k1, k2): (usize, usize) = (kani::any(), kani::any());
-    let pre = setup2(&x, &p, k1, k2);
+    let pre = setup2(&x, &p, k1, k2, kani::any());
     kani::assume(pre.wx == 1 && (k1 >= 1 || k2 >= 1));
     let raw = x.ptr.as_ptr();
     let mut h = alias(&x);
@@ -402,4 +402,110 @@ fn u6_drop_cycle_releases() {
     core::mem::forget((a, b));
     let probe = unsafe { *(raw as *const usize) };
     kani::assert(probe == 0 || probe != 0, "PROBE-AFTER-RELEASE");
+}
+
+// ------------------------------------------------------------ zero-count teardown, u8 payload variants
+// Same whole-view postconditions as the Probe variants, without a value destructor (cheaper); the call-out
+// invariant is asserted by the Probe variants.
+fn run_dua_u8(xf: usize, xb: usize) {
+    let x = Rc::new(1u8);
+    let p = Rc::new(2u8);
+    let (wx, sp, wp, pself): (usize, usize, usize, usize) = (kani::any(), kani::any(), kani::any(), kani::any());
+    kani::assume(wx >= 2);
+    set_counts(&x, 0, wx);
+    set_counts(&p, sp, wp);
+    install(&x, fwd(&p), xf);
+    install(&p, bwd(&x), xf);
+    install(&x, bwd(&p), xb);
+    install(&p, fwd(&x), xb);
+    install(&p, lpb(&p), pself);
+    tag_table(&x, 1);
+    let mut h = alias(&x);
+    unsafe { drop_unreachable_with_adoptions(&mut h) };
+    core::mem::forget(h);
+    kani::assert(unsafe { vmap::TAGGED_DROPS } == 1, "U6.dua.own_table_storage_released_exactly_once");
+    kani::assert(cnt(&p, fwd(&x)) == 0 && cnt(&p, bwd(&x)) == 0, "U6.dua.peer_loses_every_record_of_dying_object");
+    kani::assert(cnt(&p, lpb(&p)) == pself && table_len(&p) == (if pself > 0 { 1 } else { 0 }), "U6.dua.peer_other_records_untouched");
+    kani::assert(p.inner().strong() == sp && p.inner().weak() == wp, "U6.dua.peer_counters_untouched");
+    kani::assert(borrow_free(&p), "U6.dua.no_borrow_left_on_peer");
+    kani::assert(x.inner().is_uninit() && x.inner().weak() == wx - 1, "U6.dua.ends_gone_weak_minus_one");
+    core::mem::forget((x, p));
+}
+
+#[kani::proof]
+#[kani::unwind(6)]
+fn u6_dua_mutual_u8() {
+    let (k1, k2): (usize, usize) = (kani::any(), kani::any());
+    kani::assume(k1 >= 1 && k2 >= 1);
+    run_dua_u8(k1, k2);
+}
+
+// concrete-multiplicity instances of the zero-count teardown (quick tier; the symbolic-multiplicity
+// harnesses above are the thorough tier)
+#[kani::proof]
+#[kani::unwind(6)]
+fn u6_dua_mutual_2_1() {
+    run_dua_keeps(2, 1, 1);
+}
+
+#[kani::proof]
+#[kani::unwind(6)]
+fn u6_dua_mutual_1_2() {
+    run_dua_keeps(1, 2, 1);
+}
+
+#[kani::proof]
+#[kani::unwind(6)]
+fn u6_dua_owner_dies_2() {
+    run_dua_keeps(2, 0, 1);
+}
+
+#[kani::proof]
+#[kani::unwind(6)]
+fn u6_dua_adoptee_dies_2() {
+    run_dua_keeps(0, 2, 1);
+}
+
+/// last weak on the zero-count path, concrete structure (quick tier)
+#[kani::proof]
+#[kani::unwind(6)]
+fn u6_dua_releases_1_1() {
+    let x = Rc::new(Probe(1));
+    let p = Rc::new(Probe(2));
+    let pre = setup2(&x, &p, 1, 1, 1);
+    kani::assume(pre.wx == 1);
+    let raw = x.ptr.as_ptr();
+    let mut h = alias(&x);
+    unsafe { drop_unreachable_with_adoptions(&mut h) };
+    core::mem::forget(h);
+    kani::assert(unsafe { PROBE_DROPS } == 1, "U6.dua.value_destroyed_exactly_once");
+    kani::assert(cnt(&p, Link::forward(unsafe { core::ptr::NonNull::new_unchecked(raw) })) == 0, "U6.dua.peer_loses_every_record_of_dying_object");
+    core::mem::forget((x, p));
+    let probe = unsafe { *(raw as *const usize) };
+    kani::assert(probe == 0 || probe != 0, "PROBE-AFTER-RELEASE");
+}
+
+/// self-adoption through a clone and through the same handle, concrete multiplicities (quick tier)
+#[kani::proof]
+#[kani::unwind(6)]
+fn u6_dua_self_adopted_1_1() {
+    let x = Rc::new(Probe(1));
+    let w: usize = kani::any();
+    kani::assume(w >= 2);
+    set_counts(&x, 0, w);
+    install(&x, fwd(&x), 1);
+    install(&x, bwd(&x), 1);
+    install(&x, lpb(&x), 1);
+    tag_table(&x, 1);
+    unsafe {
+        REG = x.ptr.as_ptr();
+        EXPECT_WEAK = w;
+    }
+    let mut h = alias(&x);
+    unsafe { drop_unreachable_with_adoptions(&mut h) };
+    core::mem::forget(h);
+    kani::assert(unsafe { PROBE_DROPS } == 1, "U6.dua.value_destroyed_exactly_once");
+    kani::assert(unsafe { vmap::TAGGED_DROPS } == 1, "U6.dua.own_table_storage_released_exactly_once");
+    kani::assert(x.inner().is_uninit() && x.inner().weak() == w - 1, "U6.dua.ends_gone_weak_minus_one");
+    core::mem::forget(x);
 }
